@@ -101,6 +101,11 @@ func gen(rng *rand.Rand) *scen {
 		}
 	case "trip2": // two failing completions race for Closed->Open
 		s.Workers = [][]step{{{K: "complete-err", Live: 0}}, {{K: "complete-err", Live: 1}}, {enter()}}
+		if rng.Intn(2) == 0 {
+			// ... while the clock ticks, and a request arrives a retry timeout (or more) later: the loser of the
+			// race must not have moved the deadline of the open period
+			s.Workers[2] = []step{{K: "tick", Dt: []uint64{1, r / 2, r - 1}[rng.Intn(3)]}, {K: "tick", Dt: []uint64{r / 2, r, r + r/2}[rng.Intn(3)]}, {K: "enter"}}
+		}
 	case "timeout": // the retry timeout expires while two requests arrive
 		s.Workers = [][]step{{enter()}, {enter()}, {{K: "tick", Dt: tickChoices[rng.Intn(5)]}, {K: "tick", Dt: tickChoices[rng.Intn(5)]}}}
 	case "probe-blocked": // the request that becomes the probe is blocked by a later slot while a straggler fails
@@ -317,6 +322,11 @@ func execute(s *scen, ch coop.Chooser) (res *coop.Result, clause, msg string) {
 		admitted       bool
 		retPos         int
 		forced         bool // the monitor's later slot blocks this request whatever the breaker says
+		callT          uint64
+		overlapped     bool // another API call (of any worker) was in progress at some point during this request
+		// the opening call had returned before this request began (then openEndAtCall = its end time)
+		openEndKnownAtCall bool
+		openEndAtCall      uint64
 	}
 	cur := map[int]*reqInfo{} // worker -> request in progress
 	inExit := map[int]bool{}
@@ -328,16 +338,33 @@ func execute(s *scen, ch coop.Chooser) (res *coop.Result, clause, msg string) {
 	if init == HalfOpen {
 		halfOpenPos = 0
 	}
+	// "after which one probe is admitted": the opening instant is at the latest the END of the call that opened the
+	// breaker (openEndT). A request that begins at or after openEndT + retry timeout, finds the breaker Open and runs
+	// alone (no other API call of any worker overlaps it) has nobody to lose the probe to: it must be admitted.
+	openW, openEndKnown, openEndT := -1, false, uint64(0)
+	active := map[int]bool{} // workers inside an API call
 	for pos, e := range trace {
 		switch e.kind {
+		case "call", "exit-beg":
+			active[e.w] = true
+			for _, r := range cur {
+				r.overlapped = true
+			}
+		case "exit-end", "ret":
+			delete(active, e.w)
+		}
+		switch e.kind {
 		case "call":
-			cur[e.w] = &reqInfo{w: e.w, forced: e.a == 1}
+			cur[e.w] = &reqInfo{w: e.w, forced: e.a == 1, callT: e.t, overlapped: len(active) > 1, openEndKnownAtCall: openEndKnown && haveOpenT, openEndAtCall: openEndT}
 			opBeg[e.w] = e.t
 		case "exit-beg":
 			inExit[e.w] = true
 			opBeg[e.w] = e.t
 		case "exit-end":
 			inExit[e.w] = false
+			if openW == e.w && !openEndKnown {
+				openEndKnown, openEndT = true, e.t
+			}
 		case "load":
 			if r := cur[e.w]; r != nil && !inExit[e.w] {
 				r.lastLoad, r.loaded = e.a, true
@@ -359,6 +386,7 @@ func execute(s *scen, ch coop.Chooser) (res *coop.Result, clause, msg string) {
 			switch to {
 			case Open:
 				lastOpenT, haveOpenT = opBeg[e.w], true
+				openW, openEndKnown = e.w, false
 				if r := cur[e.w]; r != nil && !inExit[e.w] {
 					// HalfOpen->Open performed inside an Entry call: the roll-back of a probe that was blocked
 					// by a later check. The probe never ran, the library re-arms an immediate retry: no
@@ -369,6 +397,7 @@ func execute(s *scen, ch coop.Chooser) (res *coop.Result, clause, msg string) {
 					}
 				}
 			case HalfOpen:
+				openW, openEndKnown = -1, false
 				if r := cur[e.w]; r != nil {
 					r.didHalfOpenCAS = true
 				}
@@ -403,6 +432,8 @@ func execute(s *scen, ch coop.Chooser) (res *coop.Result, clause, msg string) {
 				return res, "second-admission-while-half-open", fmt.Sprintf("worker %d read state HalfOpen (no probe number configured) and was admitted while the probe is outstanding", e.w)
 			case !r.admitted && r.lastLoad == Closed:
 				return res, "rejected-while-closed", fmt.Sprintf("worker %d read state Closed but was rejected", e.w)
+			case !r.admitted && r.lastLoad == Open && !r.overlapped && r.openEndKnownAtCall && r.callT >= r.openEndAtCall+retry:
+				return res, "probe-not-admitted-after-retry-timeout", fmt.Sprintf("worker %d began at t=%d, alone, found the breaker Open and was rejected although the call that opened it had returned at t=%d and the retry timeout is %d ms", e.w, r.callT, r.openEndAtCall, retry)
 			case !r.admitted && r.didHalfOpenCAS:
 				return res, "transitioning-request-rejected", fmt.Sprintf("worker %d performed Open->HalfOpen but was rejected", e.w)
 			}
